@@ -189,7 +189,7 @@ def _worker(args):
     modname, case = args
     mod = importlib.import_module(modname)
     try:
-        return case, mod.run(case), None
+        return case, mod.run(json.loads(json.dumps(case))), None
     except Exception:
         return case, None, traceback.format_exc()
 
@@ -267,7 +267,7 @@ def write_replay(pid, seed, tier, kind, theorem, res, extra=None):
     return path
 
 
-def shrink(mod, res, budget=150):
+def shrink(mod, res, budget=60):
     """greedy shrinking with the property module's `shrink(case)` candidates while some request
     of the case still FAILS (holds == false)."""
     sh_ = getattr(mod, "shrink", None)
